@@ -162,6 +162,12 @@ static void String_Assign(var self, var obj) {
   }
 #endif
   
+  /*
+  ** Assigned its own characters (assign(s, s), or a map key handed out by
+  ** iteration and set again): realloc may move the buffer being read.
+  */
+  if (val is s->val) { return; }
+  
   s->val = realloc(s->val, strlen(val) + 1);
   
 #if CELLO_MEMORY_CHECK == 1
